@@ -160,6 +160,7 @@ fn mk<'a>(id: &'a str, batch: &'a str, seed: u64, tier: Tier, runs: u64, known: 
 pub fn run_c05(tier: Tier, seed: u64, known: &KnownFindings) -> CheckReport {
     let mut kinds = all_kinds();
     kinds.push(Kind::FailMutation);
+    kinds.push(Kind::BoundaryMix);
     let w = TemplateWorld { prop: "C05", world_name: "templates-c05", kinds, penalty: 0.4, faults: FaultMix::None, max_iters: (12, 40), evaluations_term: true, log: true, compound_term: false, key_steps: &[] };
     let b = run_batch(&w, &mk("C05", "templates-sequential", seed, tier, tier.pick(60_000, 1_500_000), known));
     let bp = run_batch(&crate::checks::c08::SeqVsPar { prop: "C05", name: "seq-vs-par-c05", mix: false }, &mk("C05", "templates-parallel-evaluator", seed, tier, tier.pick(1_500, 60_000), known));
